@@ -255,6 +255,16 @@ theorem gt_neg_is_inverse_on_unitary (a b : Quad α) :
   refine ⟨fun h => ?_, Quad.conj_mul a b⟩
   rw [Quad.mul_conj, h]; rfl
 
+/-- First step of both final exponentiations (`f^(p⁶−1) = conj(f)·f⁻¹`): whatever `f` (with inverse
+`t`), the result is unitary — `norm = 1` — so from there on `conjugate` is the inverse, which is what
+`Gt::neg` and the `conjugate()` calls of the hard part rely on. -/
+theorem easy_part_unitary (f t : Quad α) (h : f * t = 1) :
+    Quad.norm (Quad.conj f * t) = 1 ∧ (Quad.conj f * t) * Quad.conj (Quad.conj f * t) = 1 := by
+  have hn : Quad.norm (Quad.conj f * t) = 1 := by
+    rw [Quad.norm_mul, Quad.norm_conj, ← Quad.norm_mul, h, Quad.norm_one]
+  refine ⟨hn, ?_⟩
+  rw [Quad.mul_conj, hn]; rfl
+
 /-- The `mul_by_nonresidue` short-cuts of the two `Fp2` types are multiplications by `9 + u`
 (BN254) and `1 + u` (BLS12-381) when `u² = −1`. -/
 theorem fp2_mul_by_nonresidue_spec (h : (xi : α) = -1) (a : Quad α) :
